@@ -653,6 +653,10 @@ pub fn c17(ctx: &mut Ctx) {
     let mut payload_sets: Vec<Vec<Term>> = vec![
         vec![Var(1), Var(2), Var(3), Var(4)],
         vec![app(Var(3), Var(1)), abs(app(Var(1), Var(4))), Var(2), abs(Var(1))],
+        // the undefined term UD = Var(0) is a payload like any other: it must come out of every law unshifted and uncaptured
+        vec![Var(0), Var(2), Var(3), Var(1)],
+        vec![Var(2), Var(0), Var(0), abs(app(Var(1), Var(0)))],
+        vec![app(Var(0), Var(1)), Var(3), Var(0), Var(0)],
     ];
     for _ in 0..n {
         let v: Vec<Term> = (0..4).map(|_| { let bb = 2 + ctx.rng.below(7); random_closed(&mut ctx.rng, bb, 0) }).collect();
@@ -661,7 +665,7 @@ pub fn c17(ctx: &mut Ctx) {
         payload_sets.push(w);
     }
     for (pi, ps) in payload_sets.iter().enumerate() {
-        ctx.strict = pi < 2;
+        ctx.strict = pi < 5;
         let (x, y, z, f) = (ps[0].clone(), ps[1].clone(), ps[2].clone(), ps[3].clone());
         // payloads may themselves be reducible: compare normal forms of both sides
         check_eq(ctx, "I x = x", &app(I(), x.clone()), &x);
@@ -768,7 +772,7 @@ pub fn c17(ctx: &mut Ctx) {
         }
     }
     ctx.strict = false;
-    for ps in payload_sets.iter().skip(2).step_by(2).take(if ctx.thorough { 100 } else { 15 }) {
+    for ps in payload_sets.iter().skip(5).step_by(2).take(if ctx.thorough { 100 } else { 15 }) {
         let (x, y) = (ps[0].clone(), ps[1].clone());
         // closed payloads: the From conversion is the normal form of the constructor application
         if let (Some(nx), Some(ny)) = (nf(&x, 2000), nf(&y, 2000)) {
